@@ -1,9 +1,11 @@
 //@ target: src/image.rs
 //@ strip-tracing src/image.rs
+//@ record-fmt src/image.rs
 //@ separate
 // (own scratch copy: kitty_placement_id carries Kani contract attributes in group c11_kitty, and a contracted function cannot also be stubbed)
 
-// ---- KittyImageHandler::erase: which ids it addresses (the formatted command itself goes through core::fmt; the two id functions
+// ---- KittyImageHandler::erase: which ids it addresses (the formatted command is observed as its format literal and integer arguments, engine
+// normalisation K2 - under it the arguments of write! are evaluated twice, hence two calls of each id function; the two id functions
 // are replaced by recorders)
 static mut P_CALLS: usize = 0;
 static mut P_POS: [(usize, usize); 2] = [(0, 0); 2];
@@ -12,6 +14,13 @@ fn stub_placement_id(pos: Position) -> u64 { unsafe { if P_CALLS < 2 { P_POS[P_C
 fn stub_image_id(_img: &Image) -> u64 { unsafe { I_CALLS += 1; } 7 }
 // the (never used) image cache is built without asking the OS for hashing keys (a syscall Kani does not model)
 fn fixed_random_state() -> std::collections::hash_map::RandomState { unsafe { std::mem::transmute::<[u64; 2], std::collections::hash_map::RandomState>([1, 2]) } }
+fn kstr_eq(a: &str, b: &str) -> bool {
+    let (a, b) = (a.as_bytes(), b.as_bytes());
+    if a.len() != b.len() { return false; }
+    let mut i = 0;
+    while i < a.len() { if a[i] != b[i] { return false; } i += 1; }
+    true
+}
 struct CountSink { literal: usize, fmts: usize }
 impl Write for CountSink {
     fn write(&mut self, buf: &[u8]) -> std::io::Result<usize> { self.literal += buf.len(); Ok(buf.len()) }
@@ -21,7 +30,7 @@ impl Write for CountSink {
 
 //# kind=complete tier=quick props=C11 fns="KittyImageHandler::erase" | erase(img, Some(pos)) emits one command built from the image id of THAT image and the placement id of exactly THAT position (the function draw uses for the same position - so it addresses the placement drawing there created); erase(img, None) addresses the image only; for every position
 #[kani::proof]
-#[kani::unwind(4)]
+#[kani::unwind(30)]
 #[kani::stub(kitty_placement_id, stub_placement_id)]
 #[kani::stub(kitty_image_id, stub_image_id)]
 #[kani::stub(std::collections::hash_map::RandomState::new, fixed_random_state)]
@@ -36,8 +45,17 @@ fn c11_erase_addresses_position() {
     let r = h.erase(&mut out, &img, if with_pos { Some(pos) } else { None });
     assert!(r.is_ok() && out.fmts == 1 && out.literal == 0);
     unsafe {
-        assert!(I_CALLS == 1);
-        if with_pos { assert!(P_CALLS == 1 && P_POS[0] == (pos.row, pos.col)); } else { assert!(P_CALLS == 0); }
+        use kfmt_rec::*;
+        assert!(I_CALLS == 2);
+        if with_pos { assert!(P_CALLS == 2 && P_POS[0] == (pos.row, pos.col) && P_POS[1] == (pos.row, pos.col)); } else { assert!(P_CALLS == 0); }
+        // the command itself: kitty graphics `a=d` (delete) with `d=i` (by image id, keeping the data), the image id and - when
+        // a position is given - the placement id, so that only that placement is addressed
+        assert!(NF == 1 && OTHERS == 0);
+        if with_pos {
+            assert!(kstr_eq(FMTS[0], "\x1b_Ga=d,d=i,i={},p={}\x1b\\") && NA == 2 && ARGS[0] == 7 && ARGS[1] == 42);
+        } else {
+            assert!(kstr_eq(FMTS[0], "\x1b_Ga=d,d=i,i={}\x1b\\") && NA == 1 && ARGS[0] == 7);
+        }
     }
     kani::cover!(with_pos);
     std::mem::forget(r); std::mem::forget(h); std::mem::forget(img);
